@@ -82,7 +82,7 @@ def helpers(ctx, pid):
     h = ctx.P.func(CCP)
     l, r = ("p", h.params[0]), ("p", h.params[1])
     n = ("call", NODES + "get_common_prefix_length", (l, r), ())
-    rets = {st.ret for p, st in pq.states(ctx, h) if p.exit[0] == "return"}
+    rets = pq.rets(ctx, h)
     want = ("tuple", (("slice", l, None, n), ("slice", l, n, None), ("slice", r, n, None)))
     c = "one-offset:consume_common_prefix"
     if rets == {want}:
